@@ -15,8 +15,12 @@ class Check(PropertyCheck):
     design_ref = "§5 C53"
     level_text = ("Lean theorems (sequential, queue_order, unreplayable_never_queued, stop_restores_queued_partial + "
                   "_counterexample; liveness: replay_variant_decreases, replay_run_bounded, terminal_event_enabled, "
-                  "finish_sets_outcome, every_replay_completes, fair_completion_exists) about a model of ClientPlayback (check, start_replay's preparation, stop_replay's "
-                  "revert, the playback loop with concurrency 1, ReplayHandler.done) and of Flow.backup/revert, for EVERY "
+                  "finish_sets_outcome, every_replay_completes, fair_completion_exists; option read at dispatch: "
+                  "dispatch_reads_option_at_take, sequential_while_option_is_one, no_dispatch_while_awaiting, "
+                  "started_replays_accounted, all_started_replays_complete) about a model of ClientPlayback (check, start_replay's preparation, stop_replay's "
+                  "revert, the playback loop with client_replay_concurrency as part of the state — switchable at any moment, read "
+                  "when a dequeued flow is dispatched: awaited replay (1) or background task (-1) — ReplayHandler.done, "
+                  "flow.live) and of Flow.backup/revert, for EVERY "
                   "history of submissions, stops, user edits, loop steps and replay outcomes (induction over the "
                   "history). The model is tied to the real ClientPlayback + ReplayHandler + HTTP layer running on a "
                   "virtual-time loop against an in-memory server: every real queue take, request arrival and "
@@ -32,9 +36,10 @@ class Check(PropertyCheck):
                   "F-C53a: Flow.backup() keeps an existing backup); the full statement is refuted by "
                   "stop_restores_queued_counterexample. trusted: asyncio.Queue is FIFO; a flow's editable state is "
                   "abstracted to response/error/is_replay + an edit counter; flow.live during a replay is not modelled "
-                  "(check's live test uses the static attribute and the inflight identity); client_replay_concurrency = 1 only.")
+                  "(flow.live is modelled as set at the start and cleared at the end of a replay of the flow).")
     technique = "Lean 4 proof (invariants over all histories) + virtual-time correspondence with the real addon and replay handler"
-    rule = ("scripts over {start_replay(list of flows incl. unreplayable kinds, duplicates), stop_replay, user edit, server "
+    rule = ("scripts over {start_replay(list of flows incl. unreplayable kinds, duplicates), stop_replay, user edit, "
+            "client_replay_concurrency switched 1 <-> -1 at idle and busy moments (initial value 1 or -1), server "
             "connect ok/refuse, respond, close, clock}; flows of 10 kinds. distinct = distinct script; non-trivial = at least "
             "one flow was queued.")
     budget = {"quick": 300, "thorough": 8000}
@@ -113,7 +118,7 @@ class Check(PropertyCheck):
                                      f"client_replay_concurrency=1, had not finished")
                 replays.append([r[1], r[2], False, False])
             elif k == "arrive":
-                cand = [p for p in replays if p[0] == r[1] and not p[2] and not p[3]]
+                cand = [replays[r[2]]] if 0 <= r[2] < len(replays) and not replays[r[2]][3] else []
                 if not cand: fails.append(f"request of flow {r[1]} arrived but no replay of it is running")
                 else:
                     cand[0][2] = True
@@ -125,8 +130,7 @@ class Check(PropertyCheck):
                             fails.append(f"request of flow {r[1]} arrived while the earlier replay of flow {p[0]}, started "
                                          f"with client_replay_concurrency=1, had not finished")
             elif k == "finish":
-                cand = [p for p in replays if p[0] == r[1] and not p[3]]
-                if cand: cand[0][3] = True
+                if 0 <= r[3] < len(replays): replays[r[3]][3] = True
             elif k == "winddown": wound = True
         # "every replayed flow ends with a response or an error" (liveness, explored: after the server has refused / closed
         #  everything pending)
@@ -182,18 +186,15 @@ class Check(PropertyCheck):
                 t = tq.pop(0) if tq else -1
                 run.append([t, r[1], r[2] != -1, False]); lines.append("take")
             elif k == "arrive":
-                cand = [p for p in run if p[1] == r[1] and not p[3]]
-                if cand:
-                    cand[0][3] = True
-                    lines.append("send" if cand[0][2] else f"bsend {cand[0][0]}")
+                if 0 <= r[2] < len(run):
+                    run[r[2]][3] = True
+                    lines.append("send" if run[r[2]][2] else f"bsend {run[r[2]][0]}")
                 else: lines.append("send")
             elif k == "finish":
-                cand = [p for p in run if p[1] == r[1]]
-                if cand:
-                    run.remove(cand[0])
-                    res = 1 if r[2] == "response" else 0
-                    lines.append(f"finish {res}" if cand[0][2] else f"bfinish {cand[0][0]} {res}")
-                else: lines.append(f"finish {1 if r[2] == 'response' else 0}")
+                res = 1 if r[2] == "response" else 0
+                if 0 <= r[3] < len(run):
+                    lines.append(f"finish {res}" if run[r[3]][2] else f"bfinish {run[r[3]][0]} {res}")
+                else: lines.append(f"finish {res}")
             elif k == "edit": lines.append(f"edit {r[1]}")
             elif k == "state": lines.append("q")
         return lines
@@ -213,19 +214,17 @@ class Check(PropertyCheck):
         states, checks = [], []
         run = []         # running replays, oldest first: [flow, sequential, request sent]
         for r in obs["trace"]:
-            if r[0] == "take": run.append([r[1], r[2] != -1, False])
+            if r[0] == "take": run.append([r[1], r[2] != -1, False, False])     # flow, sequential, sent, finished
             elif r[0] == "arrive":
-                cand = [p for p in run if p[0] == r[1] and not p[2]]
-                if cand: cand[0][2] = True
+                if 0 <= r[2] < len(run): run[r[2]][2] = True
             elif r[0] == "finish":
-                cand = [p for p in run if p[0] == r[1]]
-                if cand: run.remove(cand[0])
+                if 0 <= r[3] < len(run): run[r[3]][3] = True
             elif r[0] == "state":
                 q = ",".join(map(str, r[1])) or "-"
                 fl = ";".join(".".join(map(str, f)) for f in r[3]) or "-"
                 # the liveness variant, computed from the REAL run: 3 per queued flow, 2 for a started replay, 1 for a
                 # replay whose request has reached the server (awaited or background)
-                v = 3 * len(r[1]) + sum(1 if p[2] else 2 for p in run)
+                v = 3 * len(r[1]) + sum(1 if p[2] else 2 for p in run if not p[3])
                 states.append(f"{q} {r[2]} {fl}|v{v}|o{1 if r[4] != -1 else 0}|b{r[5]}")
             elif r[0] == "start":
                 # the verdict for a flow listed twice is taken once before the call; the model is asked before the call too
